@@ -26,11 +26,36 @@ def geometry(dw, hl):
     return "aligned" if lo == 0 else "unaligned"
 
 
+def field_map(spec):
+    """-> per header field (in layout order) the slice (param name, low bit, width) of the packet-side endpoint that
+    carries it.  Header.get_field maps a header field named <p>_lsb / <p>_msb of width w to bits [0, w) / [w, 2w) of
+    the param <p> (spec["split"]: one 2w-bit param carried by two w-bit header fields, as LiteSATA does with its
+    48-bit lba); every other field is a param of its own."""
+    out = []
+    for name, byte, off, width in sorted_fields(spec):
+        if spec.get("split") and name.endswith("_lsb"):
+            out.append((name[:-4], 0, width))
+        elif spec.get("split") and name.endswith("_msb"):
+            out.append((name[:-4], width, width))
+        else:
+            out.append((name, 0, width))
+    return out
+
+
+def param_layout(spec, hdr):
+    if not spec.get("split"):
+        return hdr.get_layout()
+    lay = {}
+    for pname, lo, width in field_map(spec):
+        lay[pname] = max(lay.get(pname, 0), lo + width)
+    return sorted(lay.items())
+
+
 def frame_endpoints(spec):
     """-> (top module, sink, source) of the element under test"""
     hdr = header_of(spec)
     dw = spec["dw"]
-    pd = stream.EndpointDescription([("data", dw)], hdr.get_layout())
+    pd = stream.EndpointDescription([("data", dw)], param_layout(spec, hdr))
     rd = stream.EndpointDescription([("data", dw)])
     top = Module()
     cls = spec["cls"]
@@ -59,17 +84,24 @@ def _make_frame(spec):
     top, sink, source = frame_endpoints(spec)
     dw = spec["dw"]
     assert dw <= 32
-    names = [f[0] for f in sorted_fields(spec)]
-    assert len(names) <= 2
+    fmap = field_map(spec)
+    assert len(fmap) <= 2
     valid, dlo, dhi, last, ready = Signal(), Signal(16), Signal(16), Signal(), Signal()
     fin = [Signal(24), Signal(24)]
     top.comb += [sink.valid.eq(valid), sink.data.eq(Cat(dlo, dhi)), sink.last.eq(last), source.ready.eq(ready)]
     fout = [Constant(0), Constant(0)]
-    for i, n in enumerate(names):
-        if hasattr(sink, n):
-            top.comb += getattr(sink, n).eq(fin[i])
-        if hasattr(source, n):
-            fout[i] = getattr(source, n)
+    params = {}
+    for i, (pname, lo, width) in enumerate(fmap):
+        params.setdefault(pname, []).append((lo, width, i))
+    for pname, parts in params.items():
+        parts.sort()
+        assert [lo for lo, _, _ in parts] == [sum(w for _, w, _ in parts[:j]) for j in range(len(parts))]
+        if hasattr(sink, pname):
+            assert len(getattr(sink, pname)) == sum(w for _, w, _ in parts)
+            top.comb += getattr(sink, pname).eq(Cat(*[fin[i][:w] for _, w, i in parts]))
+        if hasattr(source, pname):
+            for lo, w, i in parts:
+                fout[i] = getattr(source, pname)[lo:lo + w]
     ins = [valid, dlo, dhi, last, fin[0], fin[1], ready]
     outs = [sink.ready, source.valid, source.data[:min(16, dw)], source.data[16:32] if dw > 16 else Constant(0),
             source.last, fout[0], fout[1]]
@@ -162,7 +194,8 @@ def fifo_cfg(spec, flat=1):
     return {"minlen": spec.get("minlen", 1), "maxlen": spec["maxlen"], "pmax": spec.get("pmax", 1),
             "bubbles": int(spec.get("bubbles", 1)), "rdy1": int(spec.get("rdy1", 0)), "credit": int(spec.get("credit", 0)),
             "cap": spec["depth"] + (2 if spec.get("buffered") else 0) + spec.get("slack", 0),
-            "npar": spec.get("npar", 2), "flat": flat}
+            "npar": spec.get("npar", 2), "flat": flat, "junk": int(spec.get("junk", 0)),
+            "jdata": (1 << min(8, spec.get("dw", 8))) - 1}
 
 
 def route_cfg(spec, flat=1):
@@ -177,7 +210,8 @@ def route_cfg(spec, flat=1):
         bad = [m] if (spec.get("nbad", 0) and m < (1 << max(1, (m - 1).bit_length()))) else []
     return {"n": n, "m": m, "sels": sels, "badsels": bad, "minlen": spec.get("minlen", 1),
             "maxlen": spec.get("maxlen", 2), "bubbles": int(spec.get("bubbles", 1)), "cap": 0, "flat": flat,
-            "npar": spec.get("npar", 2)}
+            "npar": spec.get("npar", 2), "junk": int(spec.get("junk", 0)),
+            "jdata": (1 << min(8, spec.get("dw", 8))) - 1, "jparam": (1 << spec.get("pw", 2)) - 1}
 
 
 def tla_cfg(spec, flat=1):
@@ -188,12 +222,14 @@ def describe(spec):
     fam = spec["fam"]
     env = ",".join("%s=%s" % (k, spec[k]) for k in ("minlen", "maxlen", "bubbles", "junk", "rdy1") if k in spec)
     if fam == "frame":
-        return "%s(dw=%d, header %dB %s%s, fields %s; %s)" % (
+        return "%s(dw=%d, header %dB %s%s, fields %s%s; %s)" % (
             spec["cls"], spec["dw"], spec["hl"], spec["geom"], ", swap" if spec["swap"] else "",
-            "/".join("%s@%d.%d:%d" % tuple(f) for f in sorted_fields(spec)), env)
+            "/".join("%s@%d.%d:%d" % tuple(f) for f in sorted_fields(spec)),
+            " (halves of one param)" if spec.get("split") else "", env)
     if fam == "fifo":
-        return "PacketFIFO(depth=%d%s%s; %s)" % (spec["depth"], ", param_depth=%d" % spec["pdepth"] if spec.get("pdepth") else "",
-                                              ", buffered" if spec.get("buffered") else "", env)
+        return "PacketFIFO(depth=%d%s%s%s; %s)" % (spec["depth"], ", param_depth=%d" % spec["pdepth"] if spec.get("pdepth") else "",
+                                                ", buffered" if spec.get("buffered") else "",
+                                                ", no params" if not spec.get("pw") else "", env)
     return "%s(%dx%d%s; %s)" % (spec["cls"], spec["n"], spec["m"], ", one_hot" if spec.get("one_hot") else "", env)
 
 
@@ -306,7 +342,8 @@ class FifoHint:
             return tuple(iv[:4]) == held
         starved = cfg["credit"] > 0 and occ >= cfg["credit"]
         if iv[0] == 0:
-            return tuple(iv[1:4]) == (0, 0, 0) and bool(cfg["bubbles"] or k == 0 or starved)
+            junk = bool(cfg.get("junk")) and tuple(iv[1:4]) == (cfg["jdata"], 1, cfg["pmax"])
+            return (tuple(iv[1:4]) == (0, 0, 0) or junk) and bool(cfg["bubbles"] or k == 0 or starved)
         return (not starved and iv[1] == 1 + par * cfg["maxlen"] + k and _last_ok(cfg, k + 1, iv[2])
                 and (iv[3] <= cfg["pmax"] if k == 0 else iv[3] == p))
 
@@ -337,7 +374,8 @@ class RouteHint:
                 if t != held:
                     return False
             elif t[0] == 0:
-                if t != (0, 0, 0, 0) or not (cfg["bubbles"] or k == 0):
+                junk = bool(cfg.get("junk")) and t == (0, cfg["jdata"], 1, cfg["jparam"])
+                if not (t == (0, 0, 0, 0) or junk) or not (cfg["bubbles"] or k == 0):
                     return False
             else:
                 if t[1] != 1 + (i * 2 + par) * cfg["maxlen"] + k or t[3] != par + 1 or not _last_ok(cfg, k + 1, t[2]):
@@ -386,6 +424,9 @@ H4 = (4, [("a", 0, 0, 8), ("b", 1, 0, 24)])
 H5 = (5, [("a", 0, 0, 16), ("b", 2, 0, 24)])
 H6 = (6, [("a", 0, 0, 24), ("b", 3, 0, 24)])
 H7 = (7, [("a", 0, 0, 24), ("b", 4, 0, 24)])
+# one 32-bit param carried by two 16-bit header fields (Header.get_field: <p>_lsb / <p>_msb), upper half first on the wire
+HS = (4, [("x_lsb", 2, 0, 16), ("x_msb", 0, 0, 16)])
+HS5 = (5, [("x_lsb", 3, 0, 16), ("x_msb", 0, 0, 16)])        # ... with a gap, unaligned on 16 bit
 
 
 def frame_configs(tier):
@@ -402,6 +443,18 @@ def frame_configs(tier):
             if cls == "RoundTrip" and tier == "quick" and (dw, hl) not in ((8, 1), (8, 3), (16, 4)):
                 continue
             L.append(_frame(cls, dw, hl, f, swap, **full))
+    # --- a param split over two header fields (the _lsb / _msb branch of Header.get_field)
+    split = [(16, HS, 1)]
+    if tier == "thorough":
+        split += [(8, HS, 0), (32, HS, 1)]
+    for dw, (hl, f), swap in split:
+        for cls in ("Packetizer", "Depacketizer", "RoundTrip"):
+            if cls == "RoundTrip" and tier == "quick":
+                continue
+            L.append(_frame(cls, dw, hl, f, swap, split=1, **full))
+    if tier == "thorough":
+        L.append(_frame("Depacketizer", 16, HS5[0], HS5[1], 1, split=1, **full))
+        L.append(_frame("Packetizer", 16, HS5[0], HS5[1], 1, split=1, minlen=2, maxlen=3, bubbles=0, junk=1))
     # --- unaligned geometries (header_words >= 1, leftover > 0)
     unal = [(16, H3, 1), (16, H5, 1)]
     if tier == "thorough":
@@ -421,6 +474,10 @@ def frame_configs(tier):
                 continue
             L.append(_frame(cls, dw, hl, f, swap, minlen=2, maxlen=3, bubbles=1, junk=0))
             L.append(_frame(cls, dw, hl, f, swap, minlen=1, maxlen=2, bubbles=0, junk=0))
+            # (d) the complete environment (one-beat packets, pauses inside packets with junk - also a junk `last` - on
+            #     the bus): clean since the Packetizer loads its residue register on accepted beats only
+            if tier == "thorough" or cls == "Packetizer":
+                L.append(_frame(cls, dw, hl, f, swap, **full))
     # --- headers shorter than one data word (header_words = 0)
     short = [(16, H1, 1)]
     if tier == "thorough":
@@ -457,6 +514,10 @@ def fifo_configs(tier):
     add(depth=2, maxlen=2, buffered=True, env="full")
     # a param FIFO that can be full while the payload FIFO still has room (param_depth < payload_depth - 1)
     add(depth=3, maxlen=2, pdepth=1, env="full")
+    # junk on the bus while the producer offers nothing (data, a set `last`, params), between and inside packets;
+    # a layout without params (PacketFIFO then queues a dummy param per packet)
+    add(depth=2, maxlen=2, junk=1, env="full")
+    add(depth=2, maxlen=2, junk=1, pw=0, pmax=0, env="full")
     if tier == "thorough":
         add(depth=3, maxlen=3, credit=3, env="credit")
         add(depth=3, maxlen=2, credit=3, pdepth=1, env="credit")
@@ -465,6 +526,9 @@ def fifo_configs(tier):
         add(depth=3, maxlen=3, env="full")
         add(depth=4, maxlen=2, pdepth=1, env="full")
         add(depth=4, maxlen=4, npar=1, env="full")
+        add(depth=3, maxlen=2, pdepth=1, junk=1, env="full")
+        add(depth=2, maxlen=2, junk=1, buffered=True, env="full")
+        add(depth=3, maxlen=3, credit=3, junk=1, pw=0, pmax=0, env="credit")
     # after a recorded finding the remaining clauses are explored further (thorough tier) for the smallest DUT only
     for spec in L:
         if spec.get("env") == "full" and spec["depth"] == 2 and not spec.get("buffered"):
@@ -486,7 +550,11 @@ def route_configs(tier):
     add("Dispatcher", 1, 2, maxlen=3)
     add("Dispatcher", 1, 2, maxlen=2, one_hot=True, nbad=2)
     add("Dispatcher", 1, 3, maxlen=2, nbad=1, npar=1)
+    # masters that drive junk (data, a set `last`, param) while they offer nothing, between and inside packets
+    add("Arbiter", 2, 1, maxlen=2, junk=1)
+    add("Dispatcher", 1, 2, maxlen=2, junk=1)
     if tier == "thorough":
+        add("Dispatcher", 1, 2, maxlen=2, one_hot=True, nbad=2, junk=1)
         add("Arbiter", 3, 1, maxlen=2)
         add("Arbiter", 4, 1, maxlen=1, npar=1)
         add("Dispatcher", 1, 3, maxlen=3, one_hot=True, nbad=2)
